@@ -41,17 +41,15 @@ OracleTheorems(Qs) ==
    - algebraic relations between outputs of the same evaluation (round trips, Lagrangian versus Eulerian Cauchy
      stress, sigma = F S F^T / J, push-forward, Truesdell = spatial / J): rounding of a few 6 x 6 products and of
      the inversion of p -> class 1 (1e-11);
-   - power identities: dE_log from fourth-order differences (step 2^-14) of the handler in long double
-     (truncation 1e-15, rounding 1e-19 / 2^-14) against double results -> class 2 (1e-9);
-   - derivative of the converted stress (same stencil) -> class 2 (1e-9);
-   - nearly coincident stretches: the handler switches to the coincident formulas below |C_i - C_j| < 1e-14 and
-     otherwise divides differences of logarithms by C_i - C_j (once for the stresses, twice for the moduli): with a
-     relative gap g = 2^(1-t) the documented-free but unavoidable loss is about 1e-16 / g for the stresses and
-     1e-16 / g^2 for the moduli; the statement asks for consistency "for every F", so the judge only allows that loss:
-     classes for t = 10 / 20 / 30 / 40 / 50: stresses 1 / 2 / 3 / 5 / 1(equal branch), moduli 2 / 4 / 6 / 6 / 2. *)
-TolAlg(c) == IF ~Perturbed(c) THEN 1
-             ELSE IF c.t <= 10 THEN 1 ELSE IF c.t <= 20 THEN 2 ELSE IF c.t <= 30 THEN 3 ELSE IF c.t <= 40 THEN 5 ELSE 1
-TolPower(c) == IF ~Perturbed(c) THEN 2 ELSE IF TolAlg(c) < 2 THEN 2 ELSE TolAlg(c)
-TolModuli(c) == IF ~Perturbed(c) THEN 2
-                ELSE IF c.t <= 10 THEN 2 ELSE IF c.t <= 20 THEN 4 ELSE IF c.t <= 40 THEN 6 ELSE 2
+   - power identities: dE_log from fourth-order differences (steps 2^-10 and 2^-12 of the stretch scale, the smaller
+     residual is kept) of the handler in long double against double results -> class 2 (1e-9);
+   - derivative of the converted stress (same stencils; truncation (2^-10 / lambda_min)^4 times the fifth derivative
+     of the logarithm at a stretch 1/2) -> class 3 (1e-7);
+   - nearly coincident stretches (relative gap 2^(1-t), t = 10 .. 50 around the handler's 1e-14 threshold): the
+     statement quantifies over every F, and first (second) divided differences of the logarithm can be evaluated to
+     full accuracy (log1p, series), so the judge grants one more class only: 1e-7 on the stresses and on the
+     relations between settings, 1e-5 on the moduli. *)
+TolAlg(c) == IF ~Perturbed(c) THEN 1 ELSE 3
+TolPower(c) == IF ~Perturbed(c) THEN 2 ELSE 3
+TolModuli(c) == IF ~Perturbed(c) THEN 3 ELSE 4
 =============================================================================
